@@ -92,3 +92,109 @@ Print Assumptions C09_exit_nonzero.
 Print Assumptions C09_refuted_unfixed.
 Print Assumptions C09_holds_below_capacity.
 Print Assumptions C09_sync_layer_terminates.
+
+(* ==================================================================================================
+   REMOTE placement: one boss <-> one remote doer session (Model/RemoteSession.v: boss main thread, its sending and
+   receiving threads, the doer's main thread, its two comms threads and its stdin watchdog, four byte-accounted
+   channels of any capacity (0 included), one bounded FIFO of frames per direction (any capacity >= 1), ssh;
+   faults from a finite budget at any moment: TCP cut, bad frame in either direction, doer killed, the doer's
+   stdin closed early, Error replies).  Proofs in Proofs/RemoteSession{Base,Flow,Witness}.v.
+
+   Proved for EVERY protocol the boss can run on the connection (a list of send / blocking receive / polling
+   receive operations), every capacity, every socket capacity, every fault plan and interleaving:
+     (S4) every step decreases the numeric measure RemoteSession.mu; Acc of the reversed step relation -
+          no scheduler, fair or not, can run for ever [C09_remote_step_decreases, C09_remote_terminates];
+          the executable runs of the judge only visit reachable states [C09_remote_run_sound, C09_remote_plan_run_sound].
+   NOT proved (partial - the full statements, for the record):
+     (S3) C09_remote_no_stuck : forall c x s, resp_ok c x -> covered 0 (sc_ops x) = true -> reach c x s ->
+              final s = true \/ exists s', step c s s'.
+          What is here instead: both premises are NEEDED (reachable stuck states without them:
+          [C09_remote_needs_resp_ok], [C09_remote_needs_covered]); the statement itself is checked only by the
+          differential runs (tools/remote_session_lib.py: the judge reports stuck=1 for any schedule that ends in
+          a non-final state; none does on the 1250 fault plans of the quick tier).
+     (S5) "a fault before the boss has received the final message => the boss's result is an error" is FALSE of the
+          faithful model and of the real binary [C09_remote_exit_refuted]: a cut after the last response was written
+          leaves a complete, correctly reported sync with exit status 0 (Comms::shutdown only logs the missing final
+          message).  Closed examples of the statuses: 12 / 20 / 65 / 137 [C09_remote_example_statuses]; a fault-free
+          run may end with doer status 65 instead of 0 (race between `return` from doer_main and the stdin watchdog
+          once the boss has dropped stdin) [C09_remote_example_clean_65]. *)
+From RJ Require Model.RemoteSession Proofs.RemoteSessionBase Proofs.RemoteSessionFlow Proofs.RemoteSessionWitness.
+
+Theorem C09_remote_step_decreases : forall c s s',
+  RemoteSession.step c s s' -> RemoteSession.mu s' < RemoteSession.mu s.
+Proof. intros c s s' [a H]. exact (RemoteSessionBase.step_decreases c a s s' H). Qed.
+
+Theorem C09_remote_terminates : forall c s, Acc (fun a b => RemoteSession.step c b a) s.
+Proof. exact RemoteSessionBase.terminates. Qed.
+
+Theorem C09_remote_run_sound : forall c x ord,
+  RemoteSession.reach c x (RemoteSession.run_to_end c ord (RemoteSession.init x)) /\
+  forall a, In a ord -> RemoteSession.next c a (RemoteSession.run_to_end c ord (RemoteSession.init x)) = None.
+Proof. exact RemoteSessionBase.run_sound. Qed.
+
+Theorem C09_remote_plan_run_sound : forall c x ord pl,
+  RemoteSession.reach c x (RemoteSession.run_plan_to_end c ord pl (RemoteSession.init x)).
+Proof. exact RemoteSessionBase.run_plan_sound. Qed.
+
+(* the premises of (S3) are needed: reachable, non-final states without any enabled step *)
+Theorem C09_remote_needs_resp_ok : exists c x s,
+  RemoteSession.covered 0 (RemoteSession.sc_ops x) = true /\ ~ RemoteSession.resp_ok c x /\
+  RemoteSession.reach c x s /\ RemoteSession.final s = false /\ forall s', ~ RemoteSession.step c s s'.
+Proof.
+  destruct RemoteSessionWitness.needs_resp_ok as (H1 & H2 & H3 & H4).
+  eexists _, _, _. destruct (RemoteSessionBase.stuck_sound _ _ H4). eauto.
+Qed.
+
+Theorem C09_remote_needs_covered : exists c x s,
+  RemoteSession.resp_ok c x /\ RemoteSession.covered 0 (RemoteSession.sc_ops x) = false /\
+  RemoteSession.reach c x s /\ RemoteSession.final s = false /\ forall s', ~ RemoteSession.step c s s'.
+Proof.
+  destruct RemoteSessionWitness.needs_covered as (H1 & H2 & H3 & H4).
+  eexists _, _, _. destruct (RemoteSessionBase.stuck_sound _ _ H4). eauto.
+Qed.
+
+(* (S5) as literally stated is false: a fault step, before the boss had the final message, and exit status 0 *)
+Theorem C09_remote_exit_refuted : exists c x s,
+  RemoteSession.reach c x s /\ RemoteSession.final s = true /\ 0 < RemoteSession.nfault (RemoteSession.ev s) /\
+  RemoteSession.bfin (RemoteSession.bm s) = false /\ RemoteSession.bexit (RemoteSession.bm s) = 0%N /\
+  RemoteSession.dstat (RemoteSession.ev s) = Some 0%N /\ RemoteSession.dexec (RemoteSession.dm s) = [1%N].
+Proof. exact RemoteSessionWitness.exit_refuted. Qed.
+
+Example C09_remote_example_clean : exists c x s,
+  RemoteSession.reach c x s /\ RemoteSession.final s = true /\ RemoteSession.bexit (RemoteSession.bm s) = 0%N /\
+  RemoteSession.dstat (RemoteSession.ev s) = Some 0%N /\ RemoteSession.dexec (RemoteSession.dm s) = [1; 2; 3]%N.
+Proof.
+  eexists _, RemoteSessionWitness.sc_small, _. split; [apply RemoteSessionBase.run_sound|].
+  destruct RemoteSessionWitness.clean_run as (A & B & C & D & _). eauto.
+Qed.
+
+Example C09_remote_example_clean_65 : exists c x s,
+  RemoteSession.reach c x s /\ RemoteSession.final s = true /\ RemoteSession.bexit (RemoteSession.bm s) = 0%N /\
+  RemoteSession.dstat (RemoteSession.ev s) = Some 65%N /\ RemoteSession.nfault (RemoteSession.ev s) = 0.
+Proof.
+  eexists _, RemoteSessionWitness.sc_small, _. split; [apply RemoteSessionBase.run_sound|].
+  destruct RemoteSessionWitness.clean_run_status_65 as (A & B & C & D & _). eauto.
+Qed.
+
+Example C09_remote_example_statuses :
+  (exists c x s, RemoteSession.reach c x s /\ RemoteSession.final s = true /\
+     RemoteSession.bexit (RemoteSession.bm s) = 12%N /\ RemoteSession.dstat (RemoteSession.ev s) = Some 20%N) /\
+  (exists c x s, RemoteSession.reach c x s /\ RemoteSession.final s = true /\
+     RemoteSession.bexit (RemoteSession.bm s) = 12%N /\ RemoteSession.dstat (RemoteSession.ev s) = Some 65%N) /\
+  (exists c x s, RemoteSession.reach c x s /\ RemoteSession.final s = true /\
+     RemoteSession.bexit (RemoteSession.bm s) = 12%N /\ RemoteSession.dstat (RemoteSession.ev s) = Some 137%N).
+Proof.
+  split; [|split].
+  - eexists _, _, _. split; [apply RemoteSessionBase.run_plan_sound|]. exact RemoteSessionWitness.doer_status_20.
+  - eexists _, _, _. split; [apply RemoteSessionBase.run_plan_sound|]. exact RemoteSessionWitness.stdin_closed_early.
+  - eexists _, _, _. split; [apply RemoteSessionBase.run_plan_sound|].
+    destruct RemoteSessionWitness.doer_killed as (A & B & C & _). eauto.
+Qed.
+
+Print Assumptions C09_remote_step_decreases.
+Print Assumptions C09_remote_terminates.
+Print Assumptions C09_remote_run_sound.
+Print Assumptions C09_remote_plan_run_sound.
+Print Assumptions C09_remote_needs_resp_ok.
+Print Assumptions C09_remote_needs_covered.
+Print Assumptions C09_remote_exit_refuted.
